@@ -159,6 +159,8 @@ Definition retryable (m : str) : bool := negb (str_eqb m s_POST).
 Definition s_unconditional : str := bytes "unconditional"%string.
 Definition s_echo_url : str := bytes "@echo-url"%string.
 Definition echo_body (u : str) : str := bytes "generated for "%string ++ u.
+Definition s_echo_origin : str := bytes "@echo-origin"%string.
+Definition echo_origin_body (o : str) : str := bytes "generated for origin "%string ++ o.
 
 Definition origin_answer (d : dlv) (b : behaviour) : behaviour :=
   match b with
@@ -167,6 +169,8 @@ Definition origin_answer (d : dlv) (b : behaviour) : behaviour :=
        && negb (nonempty (hget (d_hdrs d) (bytes "If-None-Match"%string)))
        && negb (nonempty (hget (d_hdrs d) (bytes "If-Modified-Since"%string)))
     then BResp (mkResp 200 [(bytes "Content-Type"%string, [bytes "text/plain"%string]); (bytes "Content-Length"%string, [bytes "13"%string])] s_unconditional)
+    else if str_eqb (rs_body r) s_echo_origin
+    then BResp (mkResp (rs_status r) (rs_hdrs r) (echo_origin_body (hget (d_hdrs d) (bytes "Origin"%string))))
     else if str_eqb (rs_body r) s_echo_url
     then BResp (mkResp (rs_status r) (rs_hdrs r) (echo_body (d_url d)))   (* a resource whose content names the URL asked for *)
     else b
